@@ -23,4 +23,21 @@ CONFIG = {
         "contradicts": "PatVerif.Props.C19 (append_spec, size_spec, encLen_minimal, consume_encode, consume_prefix, "
                        "consume_fail_iff, reencode_shorter, consumeVarintBytes_total/short, *_roundtrip)",
     },
+    "C04": {
+        "rule": "Per structure (Token ×4 widths, TokenChallenge, TokenRequest types 1/2/3/5, inner request, EncapKey, generic batch "
+                "request, batch response list): random well-formed values through encoder and decoder; mutated encodings "
+                "(truncations, extensions, bit flips and value classes at the type/length/count bytes, non-minimal and oversized "
+                "varint prefixes, foreign type tags, other KEM ids); object-reuse histories over {Marshal, Unmarshal good A/B, "
+                "Unmarshal bad} (random, and exhaustive to length 4 for type 1 in quick).",
+        "level_text": "Round trip, canonical re-encoding (no longer than any accepted string, decodes to the same value), the cache invariant "
+                      "of request objects over arbitrary Marshal/Unmarshal histories, and type separation are Lean theorems for every "
+                      "structure: each structure is a composition of codec combinators whose two laws are proved once, for all values "
+                      "and all byte strings. The model is tied to the Go code by executing both on the same operations and by direct "
+                      "round-trip/canonical/reuse oracles on the implementation.",
+        "level_note": "Trusted: Lean kernel, the three standard axioms, the harness; x/crypto cryptobyte and go-hpke are modelled "
+                      "(read/add semantics restated in Model/Codec.lean; HPKE public-key validity is an oracle parameter). The tie is by execution (sampled).",
+        "trusted_base": COMMON_TB + ["cryptobyte read/build semantics as restated in Model/Codec.lean", "go-hpke public-key validity (oracle column)"],
+        "assumptions": ["byte strings shorter than 2^31", "HPKE KEM table of go-hpke as read from its source (ids 0x10,0x12,0x20,0x21,0xFFFE,0xFFFF)"],
+        "contradicts": "PatVerif.Props.C04",
+    },
 }
